@@ -4,7 +4,7 @@ From Coq Require Import ZArith List Ascii String Sorted.
 From Verif Require Import Base.Prelude Base.Str Base.Float Schema.Regex Schema.Units Schema.FloatUnits Generated.Tables
   Proofs.UnitsArith Proofs.UnitsSweep Proofs.UnitsBuiltin Proofs.UnitsFloat
   Proofs.UnitsStringRe Proofs.UnitsStringTok Proofs.UnitsStringSound Proofs.UnitsStringRound
-  Proofs.UnitsStringRT Proofs.UnitsStringWitness Proofs.UnitsStringFloat.
+  Proofs.UnitsStringRT Proofs.UnitsStringWitness Proofs.UnitsStringFloat Proofs.UnitsStringSpec.
 Import ListNotations.
 Open Scope Z_scope.
 Open Scope list_scope.
@@ -259,6 +259,51 @@ Example C16_parse_float_nonvacuous :
   /\ parse_units_float unit_duration_seconds "1m30s" = Some (fl_of_Z b64 90)
   /\ exists x, parse_units_float unit_duration_seconds "1m 30.5 s" = Some x.
 Proof. split; [vm_compute; reflexivity|]. split; [vm_compute; reflexivity|]. eexists. vm_compute. reflexivity. Qed.
+
+(* (8) ParseInt, EXACTLY, for definitions with plain names (boolean names_plain: no digit, no
+   regexp space and no point inside a name; different units share no name — the built-in sets are
+   such).  Converse of C16_parse_sound: EVERY string whose trimmed form is a non-empty tokenisation
+   with all counts, products and partial sums inside int64 is accepted, and the answer is the sum
+   (arbitrary spaces between the pieces, leading zeros, absent units, an unnamed base count).  So
+   the parser accepts precisely the well-formed strings and returns precisely their value: *)
+Theorem C16_parse_complete : forall u s toks,
+  wf_units u = true -> names_plain u = true -> chars (trim_space s) <> [] ->
+  tokenisation u (chars (trim_space s)) toks -> in_range u toks ->
+  parse_units_int u s = Some (dot (map tok_count toks) (units_keys u)).
+Proof. exact parse_complete. Qed.
+Print Assumptions C16_parse_complete.
+
+Theorem C16_parse_spec : forall u s n, wf_units u = true -> names_plain u = true ->
+  (parse_units_int u s = Some n
+   <-> chars (trim_space s) <> []
+       /\ exists toks, tokenisation u (chars (trim_space s)) toks /\ in_range u toks
+                       /\ n = dot (map tok_count toks) (units_keys u)).
+Proof. exact parse_spec. Qed.
+Print Assumptions C16_parse_spec.
+
+Theorem C16_parse_spec_builtin : forall u s n, In u builtin_units ->
+  (parse_units_int u s = Some n
+   <-> chars (trim_space s) <> []
+       /\ exists toks, tokenisation u (chars (trim_space s)) toks /\ in_range u toks
+                       /\ n = dot (map tok_count toks) (units_keys u)).
+Proof. exact builtin_parse_spec. Qed.
+Print Assumptions C16_parse_spec_builtin.
+
+(* the tokens are a function of the string: two tokenisations of one string (up to leading
+   spaces) carry the same tokens *)
+Theorem C16_tokens_determined : forall G, plain_good G -> forall ps, incl ps G ->
+  NoDup (map upart_key ps) -> bare_last ps ->
+  forall zA zB sA sB tA tB, spaces zA = true -> spaces zB = true -> zA ++ sA = zB ++ sB ->
+  useq ps sA tA -> useq ps sB tB -> tA = tB.
+Proof. exact useq_det. Qed.
+Print Assumptions C16_tokens_determined.
+
+Example C16_parse_spec_nonvacuous :
+  forallb (fun u => wf_units u && names_plain u) builtin_units = true
+  /\ parse_units_int unit_duration_seconds " 007 days 5 m  30s " = Some 605130
+  /\ parse_units_int unit_duration_seconds "5m 1H" = None
+  /\ parse_units_int unit_bytes "9007199254740993PB" = None.
+Proof. split; [exact builtin_plain|]. vm_compute. repeat split; reflexivity. Qed.
 
 (* NOT proved: the float-side round trip within tolerance (see (4)); that the conditions of
    names_unambiguous are the weakest possible (they are sufficient, and each clause is needed
